@@ -90,13 +90,14 @@ type State struct {
 	pc     []*Term
 	ghost  map[string]*Term
 	epoch  int // number of havoc-all events so far
+	arank  int // allocation rank (monotone along a path)
 	locks  map[string]bool
 	defers []*ast.CallExpr
 	dead   bool
 }
 
 func (s *State) clone() *State {
-	n := &State{vars: make(map[types.Object]*Term, len(s.vars)), heaps: make(map[string]*Term, len(s.heaps)), alloc: s.alloc, ghost: map[string]*Term{}, epoch: s.epoch, locks: map[string]bool{}}
+	n := &State{vars: make(map[types.Object]*Term, len(s.vars)), heaps: make(map[string]*Term, len(s.heaps)), alloc: s.alloc, ghost: map[string]*Term{}, epoch: s.epoch, locks: map[string]bool{}, arank: s.arank}
 	for k, v := range s.vars {
 		n.vars[k] = v
 	}
@@ -160,68 +161,72 @@ type Oblig struct {
 	MustSat bool // vacuity checks: expected sat
 	Mode    string
 	// results
-	Verdict string // unsat sat unknown
-	Solver  string
-	Ms      int64
-	Model   string
-	Outputs map[string]string
-	Script  string
-	Bounded string
+	Verdict  string // unsat sat unknown
+	Solver   string
+	Ms       int64
+	Model    string
+	Outputs  map[string]string
+	Script   string
+	Bounded  string
 	replayed bool
 }
 
 // ---------------- verifier ----------------
 
 type Verifier struct {
-	eng      *Engine
-	pkg      *packages.Package
-	info     *types.Info
-	decl     *ast.FuncDecl
-	body     *ast.BlockStmt
-	fc       *FuncContract
-	sig      *types.Signature
-	fnName   string
-	mode     string
-	d        *DeclSet
-	obligs   []*Oblig
-	nfresh   int
-	npaths   int
-	pathCap  int
-	loopOrd  map[ast.Node]int
-	litOrd   map[*ast.FuncLit]int
-	boxed    map[types.Object]bool
-	entry    *State
-	params   []*types.Var
-	paramIn  map[string]*Term // contract name -> entry value
-	paramTy  map[string]types.Type
-	results  []*types.Var
-	resNames []string
-	recv     *types.Var
-	counter  map[string]int
-	trusted  map[string]bool
-	unspec   map[string]bool
-	inlined  map[string]bool
-	assumed  map[string]bool
-	depth    int
-	curProps []string
-	retVars  []types.Object
-	ghostOld map[string]*Term
-	inQuant  int
-	needPow2 bool
-	nlProducts [][3]*Term
-	windows  map[string]*winInfo
-	lits     map[int]litInfo
-	heapSorts map[string]string
-	scanned  map[ast.Node]bool
-	reslicedOnly map[*types.Var]bool
+	eng            *Engine
+	pkg            *packages.Package
+	info           *types.Info
+	decl           *ast.FuncDecl
+	body           *ast.BlockStmt
+	fc             *FuncContract
+	sig            *types.Signature
+	fnName         string
+	mode           string
+	d              *DeclSet
+	obligs         []*Oblig
+	nfresh         int
+	npaths         int
+	pathCap        int
+	loopOrd        map[ast.Node]int
+	litOrd         map[*ast.FuncLit]int
+	boxed          map[types.Object]bool
+	entry          *State
+	params         []*types.Var
+	paramIn        map[string]*Term // contract name -> entry value
+	paramTy        map[string]types.Type
+	results        []*types.Var
+	resNames       []string
+	recv           *types.Var
+	counter        map[string]int
+	trusted        map[string]bool
+	unspec         map[string]bool
+	inlined        map[string]bool
+	assumed        map[string]bool
+	depth          int
+	curProps       []string
+	retVars        []types.Object
+	ghostOld       map[string]*Term
+	inQuant        int
+	needPow2       bool
+	nlProducts     [][3]*Term
+	windows        map[string]*winInfo
+	lits           map[int]litInfo
+	heapSorts      map[string]string
+	scanned        map[ast.Node]bool
+	reslicedOnly   map[*types.Var]bool
 	globalsWritten map[string]bool
-	pendingHavoc map[string]bool
-	specUsed map[string]bool
-	lemmasUsed map[string]bool
-	normDone map[string]bool
-	resStack [][]*types.Var
-	sweep    bool
-	caseLabel string
+	pendingHavoc   map[string]bool
+	specUsed       map[string]bool
+	lemmasUsed     map[string]bool
+	normDone       map[string]bool
+	resStack       [][]*types.Var
+	sweep          bool
+	caseLabel      string
+	nQueries       int
+	defArrays      []*winInfo
+	refRank        map[string]int
+	allocRank      map[string]int
 }
 
 func (v *Verifier) fresh(prefix, sort string) *Term {
@@ -575,7 +580,7 @@ func (v *Verifier) sliceHeap(s *State, elem types.Type) (name string, h *Term, e
 // readElem reads element i (Int term, relative index) of slice sl.
 func (v *Verifier) readElem(s *State, sl *Term, i *Term, elem types.Type) *Term {
 	_, h, _ := v.sliceHeap(s, elem)
-	val := Select(Select(h, SBase(sl)), Add(SOff(sl), i))
+	val := Select(v.hsel(s, h, SBase(sl)), Add(SOff(sl), i))
 	v.noteRead(s, val, elem)
 	return val
 }
@@ -583,7 +588,7 @@ func (v *Verifier) readElem(s *State, sl *Term, i *Term, elem types.Type) *Term 
 func (v *Verifier) writeElem(s *State, sl *Term, i *Term, elem types.Type, val *Term) {
 	name, h, _ := v.sliceHeap(s, elem)
 	b := SBase(sl)
-	s.heaps[name] = Store(h, b, Store(Select(h, b), Add(SOff(sl), i), val))
+	s.heaps[name] = Store(h, b, Store(v.hsel(s, h, b), Add(SOff(sl), i), val))
 }
 
 // noteRead adds the type invariant of a value read from memory.
@@ -627,12 +632,12 @@ func (v *Verifier) loadField(s *State, ref *Term, st types.Type, idx int) *Term 
 	f := u.Field(idx)
 	if at, ok := f.Type().Underlying().(*types.Array); ok {
 		_, h, _ := v.sliceHeap(s, at.Elem())
-		return Select(h, fieldBase(ref, idx))
+		return v.hsel(s, h, fieldBase(ref, idx))
 	}
 	fs := v.sortOf(f.Type())
 	name := v.heapName("F", structTypeName(st), f.Name())
 	h := v.getHeap(s, name, SArr(SInt, fs))
-	val := Select(h, ref)
+	val := v.hsel(s, h, ref)
 	v.noteRead(s, val, f.Type())
 	return val
 }
@@ -687,10 +692,10 @@ func (v *Verifier) loadPtr(s *State, p *Term, t types.Type) *Term {
 		return v.loadStruct(s, p, t)
 	case *types.Array:
 		_, h, _ := v.sliceHeap(s, u.Elem())
-		return Select(h, p)
+		return v.hsel(s, h, p)
 	}
 	_, h := v.cellHeap(s, t)
-	val := Select(h, p)
+	val := v.hsel(s, h, p)
 	v.noteRead(s, val, t)
 	return val
 }
@@ -717,8 +722,86 @@ func (v *Verifier) allocRef(s *State) *Term {
 		s.assume(Eq(n, r))
 		r = n
 	}
+	v.refRank[r.String()] = s.arank
+	s.arank++
 	s.alloc = Add(r, IntLit(1))
+	v.allocRank[s.alloc.String()] = s.arank
 	return r
+}
+
+// bumpAlloc replaces the allocator by a fresh, not smaller one (after a call).
+func (v *Verifier) bumpAlloc(s *State) {
+	na := v.fresh("alloc", SInt)
+	s.assume(Ge(na, s.alloc))
+	s.alloc = na
+	s.arank++
+	v.allocRank[na.String()] = s.arank
+}
+
+// olderThan returns the smallest allocation rank A such that `t < alloc_A` is assumed.
+func (v *Verifier) olderThan(s *State, t *Term) (int, bool) {
+	if t.isInt() {
+		return 0, t.Int.Sign() >= 0 && t.Int.Cmp(big.NewInt(1)) < 0 // 0 (nil) precedes everything
+	}
+	ts := t.String()
+	best, ok := 0, false
+	for _, p := range s.pc {
+		if p.Op == "<" && len(p.Args) == 2 && p.Args[0].String() == ts {
+			if r, known := v.allocRank[p.Args[1].String()]; known && (!ok || r < best) {
+				best, ok = r, true
+			}
+		}
+	}
+	if r, isRef := v.refRank[ts]; isRef && !ok {
+		return r + 1, true
+	}
+	return best, ok
+}
+
+func isFieldBase(t *Term) bool {
+	return t.Op == "-" && len(t.Args) == 1 && t.Args[0].Op == "+"
+}
+
+// distinctRefs: certainly different references, using allocation order.
+func (v *Verifier) distinctRefs(s *State, a, b *Term) bool {
+	if distinctConst(a, b) {
+		return true
+	}
+	ra, aNew := v.refRank[a.String()]
+	rb, bNew := v.refRank[b.String()]
+	if aNew && bNew {
+		return ra != rb
+	}
+	if aNew && isFieldBase(b) || bNew && isFieldBase(a) {
+		return true
+	}
+	if aNew {
+		if ob, ok := v.olderThan(s, b); ok && ra >= ob {
+			return true
+		}
+	}
+	if bNew {
+		if oa, ok := v.olderThan(s, a); ok && rb >= oa {
+			return true
+		}
+	}
+	return false
+}
+
+// hsel reads heap h at reference b, skipping stores to certainly different references.
+func (v *Verifier) hsel(s *State, h, b *Term) *Term {
+	cur := h
+	for cur.Op == "store" && len(cur.Args) == 3 {
+		if sameTerm(cur.Args[1], b) {
+			return cur.Args[2]
+		}
+		if v.distinctRefs(s, cur.Args[1], b) {
+			cur = cur.Args[0]
+			continue
+		}
+		break
+	}
+	return Select(cur, b)
 }
 
 // zeroOf returns the zero value of type t.
